@@ -36,7 +36,10 @@ func init() {
 		for _, c := range [][]int64{{1, 0, 1}, {2, 1, 1}, {1, 0, 0}, {1, 1, 0}} {
 			quick = append(quick, &Job{Pkg: "", Func: "ZZ_C05_WriteFaultClose", Args: c, Bounds: bw})
 		}
-		for _, c := range [][]int64{{1, 1, 2}, {2, 0, 2}} {
+		for _, c := range [][]int64{{1, 0, 4}, {1, 1, 4}} { // one more write behind the failing one
+			quick = append(quick, &Job{Pkg: "", Func: "ZZ_C05_WriteFaultClose", Args: c, Bounds: bw})
+		}
+		for _, c := range [][]int64{{1, 1, 2}, {2, 0, 2}, {2, 0, 8}} {
 			thorough = append(thorough, &Job{Pkg: "", Func: "ZZ_C05_WriteFaultClose", Args: c, Bounds: bw})
 		}
 		Specs["C05"] = &Spec{
@@ -97,6 +100,17 @@ func init() {
 					}
 					addP(l, c.entry, c.on, pval, exmode, pos, ((pval+exmode)%2)*2)
 				}
+			}
+		}
+		// a handler context kept by the application and used from its own goroutine (entries 5 ctx.Write, 6 ctx.Trigger)
+		for pval := int64(0); pval < 5; pval++ {
+			for _, exmode := range []int64{0, 2} {
+				l := &thorough
+				if (pval+exmode/2)%2 == 0 {
+					l = &quick
+				}
+				addP(l, 5, 2, pval, exmode, 0, (pval%2)*2)
+				addP(l, 6, 5, pval, exmode, 1, ((pval+1)%2)*2)
 			}
 		}
 		bf := "the k-th transport Write/Writev (what=0) or Flush (what=1) fails, or the transport Read fails (what=2), on synchronous and queued channels, with three writes issued; exception handler absent / forwarding / swallowing"
